@@ -21,8 +21,8 @@ import STProofs.MapsInst
 model's `evaluate` over dual numbers on `x + ε·dx`; the dual part of the returned cost equals `⟨grad, dx⟩` with `grad` the
 gradient the real run of `evaluate` returns.  One statement for every order, N ≥ 1, dimension, flag set (all 256), energy
 weight (zero and positive), quadrature step count, every time map / spatial map pair whose `backward` / `backwardGrad`
-are the transposed derivatives of `toTime` / `toPhysical` (`TmOK`, `SmOK`; proved for the identity, `QuadInv` and affine
-time maps and for the identity and the reduced-coordinate paraboloid spatial maps), and every time / waypoint / running
+are the transposed derivatives of `toTime` / `toPhysical` (`TmOK`, `SmOK`; proved for the identity, `QuadInv`, affine and
+reciprocal time maps and for the identity and the reduced-coordinate paraboloid spatial maps), and every time / waypoint / running
 cost functor following the documented protocol (`CostsOK`: the reported gradients are the partial derivatives, explicit
 time dependence through global time).  Only hypotheses besides the protocol: the decoded durations are positive, the
 decision vector has the layout's length, there are N+1 reference waypoints.
@@ -39,8 +39,8 @@ decision vector has the layout's length, there are N+1 reference waypoints.
   (`NDEnergy.energyND_grad` = Σ over coordinates of the C06 theorems, order-gated boundary blocks: `energyGrad_gate`);
 * `EvalCore.coeffs_re`, `EvaluateGrad.decode_re` — the real parts of the dual run are the real run.
 
-The reciprocal time map of the harness (`T = b/(1 − aτ)`) has a pole, so it does not satisfy the all-`τ` form of `TmOK`;
-it is covered by the exact dual-number oracle of the check only.
+`TmOK` carries a domain predicate for the duration variables, so maps with a pole are covered away from it: the
+reciprocal time map of the harness (`T = b/(1 − aτ)`, whose `backward` uses the decoded duration) is `tmOK_recip`.
 -/
 open ST
 
@@ -142,7 +142,7 @@ example (x : List (Dual ℚ)) (hx : x.length = exCfg.layout.total)
     (hpos : ∀ h ∈ (decode exCfg (x.map Dual.re)).times, 0 < h) :
     (evaluate (liftCfg exCfg (quadInvTimeMap id) (identitySpatialMap 2)) x (exCosts (Dual ℚ))).cost.du
       = dot (evaluate exCfg (x.map Dual.re) (exCosts ℚ)).grad (x.map Dual.du) := by
-  apply evaluate_grad_exact_lift exCfg _ _ (tmOK_quadInv id id) (smOK_identity 2) x _ _ (by simp [exCfg, Config.n]) hx (by simp [exCfg, Config.n]) hpos
+  apply evaluate_grad_exact_lift exCfg _ _ (tmOK_quadInv id id) (smOK_identity 2) x (fun _ _ => trivial) _ _ (by simp [exCfg, Config.n]) hx (by simp [exCfg, Config.n]) hpos
   apply exCosts_ok _ _ _ _ _ hrows
   · simp [decode, liftCfg, exCfg, Config.n]
   · rw [decode_wps_length]; simp [liftCfg, exCfg, Config.n]
